@@ -129,7 +129,22 @@ func ignTopFeature(l []string) string {
 	if n >= 2 && l[n-2] == "/" && l[n-1] == "**" {
 		fs["ends-slash-starstar"] = true
 	}
-	for _, f := range []string{"double-slash", "ends-slash-starstar", "backslash", "space", "bang-inside", "starstar", "negated", "dir-only", "leading-slash", "inner-slash", "class", "qmark", "star"} {
+	// a "**" followed by two or more further non-empty segments (**/x/y, a/**/x/y)
+	for i, sym := range l {
+		if sym != "**" {
+			continue
+		}
+		segs := 0
+		for j := i + 1; j+1 < n; j++ {
+			if l[j] == "/" && l[j+1] != "/" {
+				segs++
+			}
+		}
+		if segs >= 2 {
+			fs["starstar-two-segments"] = true
+		}
+	}
+	for _, f := range []string{"double-slash", "ends-slash-starstar", "backslash", "space", "bang-inside", "starstar-two-segments", "starstar", "negated", "dir-only", "leading-slash", "inner-slash", "class", "qmark", "star"} {
 		if fs[f] {
 			return f
 		}
